@@ -462,6 +462,11 @@ func HeaderExhaustive(st *vfhelp.Stats, fl Flavor, table map[string]map[string]i
 // ---------------------------------------------------------------------------
 // C14 unit: chunk streams against the stream validator
 
+// SigUnloadableAccepted is the signature of the S7 finding: the header record
+// of file written snapshots is covered by no checksum, the stream validator
+// accepts a corrupted header and the receiver stores an unloadable snapshot.
+const SigUnloadableAccepted = "c14-stream-validator-accepts-corrupt-file-header-unloadable"
+
 // StreamCase is one generated chunk stream.
 type StreamCase struct {
 	Source     string // "chunkwriter" (streamed, header CRC present) or "file" (file split by the sender)
@@ -755,6 +760,9 @@ func Stream(st *vfhelp.Stats, fl Flavor, bigPct int) func(t *rapid.T) {
 						vfhelp.Fail(t, "c14-v2-altered-bytes-reach-sm-before-failure", "stream (%s) with %s accepted, load failed (%s) after handing altered bytes to the state machine", source, p.name, l.Why())
 					}
 					verdict = "accepted-by-validator-but-unloadable"
+					st.Known(t, SigUnloadableAccepted,
+						"source %s: the stream validator accepted a chunk stream with one flipped bit in %v of the header record; the received file cannot be loaded (%s); case %s chunk size %d",
+						source, p.regions, l.Why(), c.Canon(), chunkSize)
 				}
 			case v.Accepted:
 				vfhelp.Fail(t, "c14-stream-corruption-accepted",
